@@ -5,7 +5,6 @@ package hook
 import (
 	"fmt"
 	"reflect"
-	"runtime"
 	"sort"
 	"sync"
 )
@@ -170,7 +169,6 @@ var (
 	PreFn         func()
 	PostFn        func()
 	SelectOrderFn func(n int) []int
-	SelectWaitFn  func()
 )
 
 // GoRun replaces a `go f(a, b)` statement: f and its arguments have been evaluated by the caller, as the go
@@ -230,39 +228,54 @@ func Woke() {
 	}
 }
 
-// Select is the poll order of a rewritten select statement.
-type Select struct {
-	order []int
-	pos   int
-}
-
-func NewSelect(n int, hasDefault bool) *Select {
-	s := &Select{}
-	if f := SelectOrderFn; f != nil {
-		s.order = f(n)
-	} else {
-		s.order = make([]int, n)
-		for i := range s.order {
-			s.order[i] = i
+// Select performs the communication of a rewritten select statement (see internal/instr/genconc.go): ready cases are
+// tried one by one, non-blocking, in an order drawn from the tape; if none is ready the result is -1 when the
+// statement has a default clause, otherwise one real select over all cases blocks until one can proceed.
+func Select(hasDefault bool, cases ...reflect.SelectCase) (int, any, bool) {
+	order := selectOrder(len(cases))
+	for _, i := range order {
+		if chosen, recv, ok := reflect.Select([]reflect.SelectCase{cases[i], {Dir: reflect.SelectDefault}}); chosen == 0 {
+			return i, ifaceOf(recv), ok
 		}
 	}
-	return s
+	if hasDefault {
+		return -1, nil, false
+	}
+	i, recv, ok := reflect.Select(cases)
+	return i, ifaceOf(recv), ok
 }
 
-func (s *Select) Next() int {
-	if s.pos < len(s.order) {
-		i := s.order[s.pos]
-		s.pos++
-		return i
+func ifaceOf(v reflect.Value) any {
+	if !v.IsValid() || !v.CanInterface() {
+		return nil
 	}
-	return -1
+	return v.Interface()
 }
 
-func (s *Select) Wait() {
-	s.pos = 0
-	if f := SelectWaitFn; f != nil {
-		f()
-		return
+func CaseRecv[T any](ch <-chan T) reflect.SelectCase {
+	return reflect.SelectCase{Dir: reflect.SelectRecv, Chan: reflect.ValueOf(ch)}
+}
+
+func CaseSend[T any](ch chan<- T, x T) reflect.SelectCase {
+	return reflect.SelectCase{Dir: reflect.SelectSend, Chan: reflect.ValueOf(ch), Send: reflect.ValueOf(&x).Elem()}
+}
+
+// Val gives the received value its static type back.
+func Val[T any](ch <-chan T, v any) T {
+	if t, ok := v.(T); ok {
+		return t
 	}
-	runtime.Gosched()
+	var z T
+	return z
+}
+
+func selectOrder(n int) []int {
+	if f := SelectOrderFn; f != nil {
+		return f(n)
+	}
+	order := make([]int, n)
+	for i := range order {
+		order[i] = i
+	}
+	return order
 }
